@@ -82,6 +82,11 @@ for t in SECRET_TYPES:
     add("C10", "c10_reject_eq_str_%s" % t, "reject", "fn main() { let a = %s; let _ = a == \"x\"; }" % mk, code="E0369", needle=t)
     add("C10", "c10_reject_eq_string_%s" % t, "reject", "fn main() { let a = %s; let _ = a == String::from(\"x\"); }" % mk, code="E0369", needle=t)
     add("C10", "c10_reject_str_eq_%s" % t, "reject", "fn main() { let a = %s; let _ = *\"x\" == a; }" % mk, code="E0277", needle=t)
+# no conversion of a secret (owned or by reference) into the plain-string types a builder's extension parameters take
+for t in SECRET_TYPES:
+    mk = "%s::new(\"x\".to_string())" % t
+    add("C10", "c10_reject_ref_into_cow_%s" % t, "reject", "fn main() { let a = %s; let _c: std::borrow::Cow<'_, str> = (&a).into(); }" % mk, code="E0277", needle=t)
+    add("C10", "c10_reject_into_cow_%s" % t, "reject", "fn main() { let a = %s; let _c: std::borrow::Cow<'static, str> = a.into(); }" % mk, code="E0277", needle=t)
 add("C10", "c10_reject_hash_off", "reject", "fn main() { let mut h = std::collections::HashSet::new(); h.insert(ClientSecret::new(\"x\".to_string())); }", code="E0277", needle="ClientSecret")
 add("C10", "c10_reject_clone_verifier", "reject", "fn main() { let a = PkceCodeVerifier::new(\"x\".to_string()); let _b = a.clone(); }", code="E0599", needle="clone")
 add("C10", "c10_accept_clone_others", "accept",
